@@ -23,6 +23,9 @@ func baseEnv() []string {
 		"HOME=" + os.Getenv("HOME"),
 		"XDG_CONFIG_HOME=" + os.Getenv("XDG_CONFIG_HOME"),
 		"GIT_CONFIG_NOSYSTEM=1",
+		// the keyring library linked into git-bug would otherwise auto-launch (and leak) a
+		// dbus-daemon per process
+		"DBUS_SESSION_BUS_ADDRESS=unix:path=/nonexistent",
 		"GIT_OPTIONAL_LOCKS=0",
 		"GIT_TERMINAL_PROMPT=0",
 		"LANG=C", "LC_ALL=C", "TZ=UTC",
